@@ -167,3 +167,44 @@ proof! {
         std::mem::forget(by);
     }
 }
+
+
+/// C08 on the size form the Rust writer never emits: every strict prefix of an unknown-length
+/// sequence is an error (cut points enumerated, elements symbolic).
+fn trunc_unknown_form<T: desert_core::BinaryDeserializer>(b: &Buf) {
+    let n = b.n;
+    let mut k = 0;
+    while k < 8 {
+        if k < n {
+            match desert_core::deserialize::<T>(&b.b[..k]) {
+                Ok(v) => { std::mem::forget(v); assert!(false, "a strict prefix of an unknown-length sequence was decoded"); }
+                Err(e) => { cover!(k + 1 == n); std::mem::forget(e); }
+            }
+        }
+        k += 1;
+    }
+    assert!(n <= 8);
+}
+
+proof! {
+    //@ props=C08,C12 tier=quick bounds=unknown-length-form;E=u16;n=2;every-cut-point;targets:Vec,LinkedList,[E;2] cap=900
+    fn c08_trunc_unknown_form_u16() unwind(10) {
+        let xs = elems3::<u16>();
+        let b = unknown_form(&xs, 2);
+        trunc_unknown_form::<Vec<u16>>(&b);
+        trunc_unknown_form::<LinkedList<u16>>(&b);
+        trunc_unknown_form::<[u16; 2]>(&b);
+    }
+}
+
+proof! {
+    //@ props=C08,C12 tier=quick bounds=unknown-length-form;E=u8-in-LinkedList,Option<u8>-in-Vec;n=1;every-cut-point cap=900
+    fn c08_trunc_unknown_form_small() unwind(10) {
+        let xs = elems3::<Option<u8>>();
+        let b = unknown_form(&xs, 1);
+        trunc_unknown_form::<Vec<Option<u8>>>(&b);
+        let ys = elems3::<u8>();
+        let b = unknown_form(&ys, 1);
+        trunc_unknown_form::<LinkedList<u8>>(&b);
+    }
+}
